@@ -653,7 +653,7 @@ func ruleVD10(c *Ctx) {
 				return false
 			}
 			lk, ok := ex.Tuple.(*ssa.Lookup)
-			return ok && resolve(lk.X) == ssa.Value(prm)
+			return ok && (resolve(lk.X) == ssa.Value(prm) || resolveEnv(lk.X, a.Env) == ssa.Value(prm))
 		})
 		ok := len(acc) > 0
 		for _, r := range acc {
